@@ -364,6 +364,31 @@ Section RR.
       intro H; inversion H; subst. split; [eauto|exact Hfinal].
   Qed.
 
+  (* every parsed record occupies at least one octet: there are at most |msg| of them *)
+  Lemma rs_len_le : lenN rs <= lenN msg.
+  Proof.
+    assert (G : forall p l e, chain record_at (fun it => a_data_ok it = true) p l e -> p + lenN l <= e /\ (l <> [] -> e <= lenN msg)).
+    { induction 1 as [p|p it rest e Hf Hok Hc [IH1 IH2]]; [split; [unfold lenN; cbn; lia|congruence]|].
+      destruct (record_at_start _ _ Hf Hok) as (B1 & B2 & B3). unfold lenN in *. cbn [length]. split; [lia|]. intros _.
+      destruct rest; [inversion Hc; subst; lia|apply IH2; discriminate]. }
+    destruct rs as [|x l] eqn:E; [unfold lenN; cbn; lia|]. rewrite <- E in *. destruct (G _ _ _ Hr) as [G1 G2].
+    specialize (G2 ltac:(rewrite E; discriminate)). lia.
+  Qed.
+
+  (* the remaining-counts the reader reports in a represented state *)
+  Lemma counts_reader r idx hw : RState r idx hw ->
+    rd_questions_count r = Ok (ONum (nq - N.min idx nq)) /\
+    rd_records_count_in 0 r = Ok (ONum (an - rd nq an ns ar idx 0)) /\
+    rd_records_count_in 1 r = Ok (ONum (ns - rd nq an ns ar idx 1)) /\
+    rd_records_count_in 2 r = Ok (ONum (ar - rd nq an ns ar idx 2)) /\
+    rd_records_count r = Ok (ONum ((an - rd nq an ns ar idx 0) + (ns - rd nq an ns ar idx 1) + (ar - rd nq an ns ar idx 2))).
+  Proof.
+    intros (Hw & Hp & Hi & Hd).
+    destruct (counts_spec nq an ns ar P Hc1 Hc2 Hc3 Hc4 P_bounds _ _ _ Hi) as (Cq & C0 & C1 & C2 & Ca).
+    unfold rd_questions_count, rd_records_count_in, rd_records_count. rewrite Hd. cbn [negb].
+    rewrite Cq, C0, C1, C2, Ca. cbn [bind]. repeat split; reflexivity.
+  Qed.
+
   (* ---------------------------------------------------------------- seek by skipping *)
   (* seek to a section whose offset is NOT known, on a reader standing right behind the header:
      the reader skips the questions and the lower sections item by item *)
@@ -909,6 +934,19 @@ Section W.
     intros. cbv zeta. destruct Hp as (A1 & A2 & A3 & A4 & A5 & A6 & A7 & A8 & A9 & A10 & A11).
     eapply (step_data msg A1 A2 nq an ns ar qs rs e2 A5 A6 A7 A8 A9 A10 A11); eassumption.
   Qed.
+
+  Theorem counts_reader_any : forall r idx hw, RState msg nq an ns ar qs rs e2 r idx hw ->
+    rd_questions_count r = Ok (ONum (nq - N.min idx nq)) /\
+    rd_records_count_in 0 r = Ok (ONum (an - rd nq an ns ar idx 0)) /\
+    rd_records_count_in 1 r = Ok (ONum (ns - rd nq an ns ar idx 1)) /\
+    rd_records_count_in 2 r = Ok (ONum (ar - rd nq an ns ar idx 2)) /\
+    rd_records_count r = Ok (ONum ((an - rd nq an ns ar idx 0) + (ns - rd nq an ns ar idx 1) + (ar - rd nq an ns ar idx 2))).
+  Proof. intros. use counts_reader. Qed.
+
+  Theorem rs_len_le_any : lenN rs <= lenN msg.
+  Proof. destruct Hp as (A1 & A2 & A3 & A4 & A5 & A6 & A7 & A8 & A9 & A10 & A11). eapply (rs_len_le msg A1 A2 nq an ns ar); eassumption. Qed.
+  Theorem P_0_any : P qs rs e2 0 = 12.
+  Proof. use P_0. Qed.
 End W.
 
 Theorem linear_parsed msg l : linear_of msg = Some l ->
